@@ -585,9 +585,11 @@ func (f *Formatter) renderOpenTag(n *html.Node) string {
 			buf.WriteString(":")
 		}
 		buf.WriteString(attr.Key)
-		if attr.Val != "" {
+		// The value is normalised first: whether there is a value to write is decided on
+		// what will be written (class=" " has none), or a second pass would decide otherwise
+		if val := helpers.FormatAttr(attr.Val); val != "" {
 			buf.WriteString("=\"")
-			buf.WriteString(escapeAttr(helpers.FormatAttr(attr.Val)))
+			buf.WriteString(escapeAttr(val))
 			buf.WriteString("\"")
 		}
 	}
